@@ -329,6 +329,13 @@ func runLiterals(r *core.Run, cases []litCase, cfgs []config) {
 	core.Parallel(len(cases), 8, func(i int) {
 		c := &cases[i]
 		le := litEval{c: c, progs: c.programs()}
+		if !r.Thorough() && c.Family == "num" && len(le.progs) > 3 {
+			// quick: the plain expression context plus two of the other contexts in seeded rotation
+			n := len(le.progs) - 1
+			a := 1 + (i+int(r.Seed%1000))%n
+			b := 1 + (i+int(r.Seed%1000)+n/2)%n
+			le.progs = []litProg{le.progs[0], le.progs[a], le.progs[b]}
+		}
 		for _, pg := range le.progs {
 			le.in = append(le.in, ev.add(evItem{Src: pg.src, Mode: pg.mode, Goal: "script"}))
 			var outs []litOut
